@@ -98,7 +98,9 @@ GateRoles(k) ==
 StackGated == {"stack_any_admin", "stack_role_admin", "stack_admin_any"}
 RoleGated == {"mint", "burn", "multi_role_action", "multi_role_auth_action"} \cup StackGated
 \* entry points that demand the contract admin
-AdminGated == {"admin_fn", "set_role_admin", "transfer", "renounce_admin"} \cup StackGated
+\* #[only_admin] alone, or stacked with a guard of another family (#[when_not_paused]) in either order
+AdminOnly == {"admin_fn", "stack_np_admin", "stack_admin_np"}
+AdminGated == {"set_role_admin", "transfer", "renounce_admin"} \cup AdminOnly \cup StackGated
 
 (* the queryable membership ---------------------------------------------------*)
 \* count, member-by-index, has_role (as a yes/no answer), the list of existing roles and the
@@ -134,7 +136,7 @@ Ante(m, g, ev) ==
     [] m = "C06_revoke"         -> o.op = "revoke" /\ ok
     [] m = "C06_renounce"       -> o.op = "renounce_role" /\ ok
     [] m = "C06_set_role_admin" -> o.op = "set_role_admin" /\ ok
-    [] m = "C06_gate"           -> o.op \in RoleGated \cup {"admin_fn"} /\ ok
+    [] m = "C06_gate"           -> o.op \in RoleGated \cup AdminOnly /\ ok
     [] m = "C06_admin_gone"     -> g.gone
     [] m = "C06_enum"           -> TRUE
     [] m = "C06_enum_index"     -> TRUE
@@ -150,7 +152,7 @@ Cons(m, g, ev) ==
     [] m = "C06_set_role_admin" -> g.admin # NoOne /\ g.admin \in auth
   \* a restricted function executes only with the principal's authorization, the principal
   \* still holding the position
-    [] m = "C06_gate"           -> IF o.op = "admin_fn" THEN g.admin # NoOne /\ g.admin \in auth
+    [] m = "C06_gate"           -> IF o.op \in AdminOnly THEN g.admin # NoOne /\ g.admin \in auth
                                    ELSE /\ o.caller \in auth
                                         /\ \E r \in GateRoles(o.op) : Holds_(g, o.caller, r)
                                         /\ o.op \in StackGated => (g.admin # NoOne /\ g.admin \in auth)
